@@ -78,24 +78,32 @@ Proof.
   destruct (Qle_bool 0 (p / 100 * inject_Z (n - 1))) eqn:E; split; lra.
 Qed.
 
-Lemma pctl_interp_no_panic p sorted : 0 <= p -> p <= 100 -> sorted <> [] -> pctl_interp p sorted <> OPanic.
+Lemma pctl_findex_nonneg p n : 0 <= pctl_findex p n.
+Proof. unfold pctl_findex. destruct (Qle_bool 0 (p / 100 * inject_Z (n - 1))) eqn:E; [now apply Qle_bool_iff|lra]. Qed.
+
+(* after fix: 444a9e97f the interpolated form never indexes out of range, for EVERY p *)
+Lemma pctl_interp_never_panics p sorted : sorted <> [] -> pctl_interp p sorted <> OPanic.
 Proof.
-  intros H0 H1 Hne. assert (Hn : (0 < Z.of_nat (List.length sorted))%Z) by (destruct sorted; [congruence|cbn; lia]).
-  destruct (findex_bounds p _ H0 H1 Hn) as [Hlo Hhi]. unfold pctl_interp.
+  intros Hne. assert (Hn : (0 < Z.of_nat (List.length sorted))%Z) by (destruct sorted; [congruence|cbn; lia]).
+  unfold pctl_interp.
   set (n := Z.of_nat (List.length sorted)) in *. set (f := pctl_findex p n) in *.
-  assert (Hf0 : (0 <= Qfloor f)%Z) by (change 0%Z with (Qfloor 0); now apply Qfloor_resp_le).
-  assert (Hf1 : (Qfloor f <= n - 1)%Z) by (pose proof (Qfloor_resp_le _ _ Hhi) as H; now rewrite Qfloor_Z in H).
+  assert (Hf0 : (0 <= Qfloor f)%Z).
+  { change 0%Z with (Qfloor 0). apply Qfloor_resp_le. apply pctl_findex_nonneg. }
   destruct (n - 1 <=? Qfloor f)%Z eqn:E.
-  - destruct (nthZ_some sorted (Qfloor f)) as [v Hv]; [fold n; lia|]. rewrite Hv.
+  - destruct (nthZ_some sorted (n - 1)) as [v Hv]; [fold n; lia|]. rewrite Hv.
     unfold oval_of_val. destruct (classify v); discriminate.
-  - destruct (nthZ_some sorted (Qfloor f)) as [a Ha]; [fold n; lia|].
+  - apply Z.leb_gt in E.
+    destruct (nthZ_some sorted (Qfloor f)) as [a Ha]; [fold n; lia|].
     destruct (nthZ_some sorted (Qfloor f + 1)) as [b Hb]; [fold n; lia|]. rewrite Ha, Hb.
     destruct (numof a), (numof b); discriminate.
 Qed.
 
-(* outside 0..100 the interpolated form indexes past the end: the Go code panics (witness p = 200, two values) *)
-Lemma pctl_interp_panics_outside : exists p sorted, sorted <> [] /\ pctl_interp p sorted = OPanic.
-Proof. exists 200, [B "1"; B "2"]. split; [discriminate|]. vm_compute. reflexivity. Qed.
+Lemma pctl_interp_no_panic p sorted : 0 <= p -> p <= 100 -> sorted <> [] -> pctl_interp p sorted <> OPanic.
+Proof. intros _ _. apply pctl_interp_never_panics. Qed.
+
+(* p above 100 clamps to the last element (witness p = 200) *)
+Lemma pctl_interp_clamps_above : pctl_interp 200 [B "1"; B "2"] = oval_of_val (B "2").
+Proof. vm_compute. reflexivity. Qed.
 
 (* ---------------------------------------------------------------- the sort *)
 Lemma insert_sorted_perm x l : Permutation (insert_sorted x l) (x :: l).
